@@ -685,7 +685,7 @@ class BoolFlow:
         elif rv["k"] == "agg" and rv.get("ak") == "adt" and rv.get("is_enum") and rv.get("variant") is not None:
             # which variant an enum local holds (Ok / Err / Some / None ...): lets `.is_ok()` and `match` be followed
             pay = self._val(st, rv["a"][0]) if len(rv.get("a", [])) == 1 else None
-            v = ("V", rv["variant"], rv.get("vi"), pay if pay in (0, 1) else None)
+            v = ("V", rv["variant"], rv.get("vi"), pay if (pay in (0, 1) or (isinstance(pay, tuple) and pay and pay[0] == "V")) else None)
         elif rv["k"] in ("ref", "rawptr") and not rv["place"]["p"]:
             v = ("R", rv["place"]["l"])
         elif rv["k"] == "discr" and not [p for p in rv["place"]["p"] if p != "*"]:
